@@ -64,3 +64,18 @@ def pesr_stage_in_front(line, detail):
         return False
     front = not (f.get("a2as", "-").split(";")[0] == "-" and f.get("b2bs", "-").split(";")[0] == "-")
     return front and "panic" not in line.split(" -> ", 1)[-1]
+
+
+def zfp_unsigned_clamp(line, detail):
+    """C03, zfp reversible mode on uint32/uint64: the decoded value is exactly the data with every element above the signed
+    maximum replaced by the signed maximum (and nothing else differs); sizes hold"""
+    if " lossy=zfp:reversible" not in line or " -> val " not in line:
+        return False
+    req, out = line.split(" -> ", 1)
+    f = _fields(req); o = _fields(out)
+    if f.get("dtype") not in ("uint32", "uint64") or o.get("sizeok") != "true":
+        return False
+    es = int(f["es"]); top = (1 << (8 * es - 1)) - 1
+    data = [int.from_bytes(bytes.fromhex(x), "little") for x in f["data"].split(".")]
+    dec = [int.from_bytes(bytes.fromhex(x), "little") for x in o.get("dec", "").split(".") if x]
+    return len(data) == len(dec) and any(d > top for d in data) and all(min(d, top) == e for d, e in zip(data, dec))
